@@ -22,6 +22,7 @@ from easynetwork.lowlevel.api_sync.transports.socket import SocketDatagramTransp
 from easynetwork.protocol import BufferedStreamProtocol, DatagramProtocol, StreamProtocol
 from easynetwork.serializers import StringLineSerializer
 
+from vlib import netutil  # noqa: E402
 from vlib import faultsock, vselect
 from vlib.runner import HangDetected, cpu_guard
 
@@ -291,15 +292,7 @@ def scenario_stream(ctx, kind: str, rng: random.Random, T: float | None, retry: 
 
 
 def _tcp_pair():
-    srv = socket.socket(socket.AF_INET, socket.SOCK_STREAM)
-    srv.bind(("127.0.0.1", 0))
-    srv.listen(1)
-    c = socket.socket(socket.AF_INET, socket.SOCK_STREAM)
-    c.connect(srv.getsockname())
-    s, _ = srv.accept()
-    srv.close()
-    s.setsockopt(socket.IPPROTO_TCP, socket.TCP_NODELAY, 1)
-    return c, s
+    return netutil.tcp_pair()
 
 
 def _account(ctx, kind, T, retry, arrivals, world, outcome, lock_wait):
@@ -404,12 +397,7 @@ def scenario_udp(ctx, rng: random.Random, T: float | None, retry: float, tag) ->
     from easynetwork.clients.udp import UDPNetworkClient
 
     t_arr = rng.choice([0.0, 0.25, 1.0, 2.5])
-    a = socket.socket(socket.AF_INET, socket.SOCK_DGRAM)
-    a.bind(("127.0.0.1", 0))
-    b = socket.socket(socket.AF_INET, socket.SOCK_DGRAM)
-    b.bind(("127.0.0.1", 0))
-    a.connect(b.getsockname())
-    b.connect(a.getsockname())
+    a, b = netutil.udp_pair()
     b.setblocking(False)
     arrivals = [(t_arr, b"datagram")]
     if rng.random() < 0.3:
